@@ -265,7 +265,8 @@ def run_case(case, *, oracle=True):
             n0 = len(o.nexts)
             before = snapshot(tab)
             was_finished = tab.finished
-            was_started = FLAG.STARTED in tab.flag
+            # 'started' observed independently of the STARTED bit: the trunk is built or a step is on record
+            was_started = FLAG.STARTED in tab.flag or FLAG.TRUNK_BUILT in tab.flag or len(tab.history) > 0
             hist0 = len(tab.history)
             out = None
             exc = None
